@@ -288,7 +288,86 @@ def run_task_level(ctx, wd):
         ctx.drift_at({"scenario": sc[tid], "events": [e["e"] for e in ev[max(0, prefix - 6):prefix + 1]]}, "a behaviour of SseAsgi.tla",
                      ev[prefix] if prefix < len(ev) else None, "recorded ASGI event stream is not a behaviour of SseAsgi.tla at event %d" % (prefix + 1))
     run_plain_stream(ctx, wd)
+    run_denial(ctx)
     ctx.sample({"asgi_task_scenario": sc[len(sc) // 3], "events": [e["e"] + ("(%s)" % e["x"] if e["x"] else "") for e in traces[len(sc) // 3]["events"]]})
+
+
+def run_denial(ctx):
+    """a streaming response sent as the HTTP answer to a refused WebSocket handshake (WebsocketDenialResponse): the client's
+    websocket.disconnect must reach the stream as the disconnect it waits for - same clauses as for a plain HTTP scope"""
+    import baize.asgi as A
+    from baize.asgi.websocket import WebsocketDenialResponse
+
+    async def play_denial(kind, disc, gap, ping, k=8):
+        loop = asyncio.get_running_loop()
+        state = {"closed": 0, "sent": [], "returned_at": None, "polled": 0}
+
+        async def gen():
+            try:
+                for i in range(1, k + 1):
+                    await asyncio.sleep(gap)
+                    yield ({"data": str(i)} if kind == "sse" else b"item:%d;" % i)
+            finally:
+                state["closed"] += 1
+
+        first = [True]
+
+        async def receive():
+            if first[0]:
+                first[0] = False
+                return {"type": "websocket.connect"}
+            d = disc - loop.time()
+            if d > 0:
+                await asyncio.sleep(d)
+            state["polled"] += 1
+            if state["polled"] > 2000:
+                from ..servers import Livelock
+                raise Livelock("receive() polled %d times after websocket.disconnect" % state["polled"])
+            return {"type": "websocket.disconnect", "code": 1006}
+
+        async def send(m):
+            if m["type"] == "websocket.http.response.body" and m.get("body") and m["body"] != b": ping\n\n":
+                state["sent"].append(tag(m["body"]) if kind == "stream" else int(m["body"].split(b"data: ")[1].split(b"\n")[0]))
+        inner = A.SendEventResponse(gen(), ping_interval=ping) if kind == "sse" else A.StreamResponse(gen())
+        scope = {"type": "websocket", "path": "/", "headers": [], "extensions": {"websocket.http.response": {}}, "subprotocols": []}
+        exc = ""
+        try:
+            await asyncio.wait_for(WebsocketDenialResponse(inner)(scope, receive, send), 300)
+            state["returned_at"] = loop.time()
+        except asyncio.TimeoutError:
+            exc = "NeverReturned"
+        except BaseException as e:  # noqa
+            exc = type(e).__name__ + ": " + str(e)[:80]
+        for _ in range(6):
+            await asyncio.sleep(0)
+        me = asyncio.current_task()
+        state["pending"] = len([t for t in asyncio.all_tasks() if t is not me and not t.done()])
+        state["exc"] = exc
+        return state
+
+    for kind in ("stream", "sse"):
+        for disc in (0, 1, 2, 3, 5):
+            for gap in (1, 2):
+                ping = 2
+                try:
+                    st = vloop.run(play_denial(kind, disc, gap, ping))
+                except vloop.Deadlock as e:
+                    st = {"exc": "Deadlock:" + str(e), "pending": 0, "closed": 0, "sent": [], "returned_at": None}
+                ctx.count()
+                case = {"response": "WebsocketDenialResponse(%s)" % ("SendEventResponse" if kind == "sse" else "StreamResponse"),
+                        "disconnect_at": disc, "item_every": gap, "ping_interval": ping, "items": 8}
+                deadline = disc + (max(gap, ping) if kind == "sse" else gap)
+                if st["exc"]:
+                    ctx.violation(case, "the call returns", st["exc"], "denied handshake with a streaming response: the call ended with %s after the client went away" % st["exc"].split(":")[0])
+                elif st["returned_at"] is None or st["returned_at"] > deadline + 1e-9:
+                    ctx.violation(case, "returned by t=%s" % deadline, {"returned_at": st["returned_at"]},
+                                  "denied handshake with a streaming response: the disconnect is not noticed in time (returned at %s)" % st["returned_at"])
+                elif st["pending"] or st["closed"] != 1:
+                    ctx.violation(case, "cleanup once, nothing pending", {"pending": st["pending"], "closed": st["closed"]},
+                                  "denied handshake with a streaming response: %d pending task(s), cleanup ran %d time(s)" % (st["pending"], st["closed"]))
+                elif st["sent"] != list(range(1, len(st["sent"]) + 1)):
+                    ctx.violation(case, "items in order", st["sent"], "denied handshake with a streaming response: items lost or out of order")
+                ctx.nontriv(("denial-stream", kind, disc, gap))
 
 
 PLAIN_INV = ["DeliveredInOrder", "ClosedOnce", "Settled", "CompleteWhenUndisturbed", "RaisedIsReported", "RaisedOnlyIfProducerRaised",
